@@ -244,6 +244,20 @@ func c07Run(tb rapid.TB, c c07Case) {
 				s.ackStage = 2
 				s.sentTypes = append(s.sentTypes, rtPubComp)
 			case q.Kind == "sub":
+				if q.WrongLen != 0 {
+					// the client drops the link on this SUBACK: let every other (already acknowledged) call return
+					// first, otherwise "my ack arrived" and "the connection closed" race in their select
+					vWaitUntil(20*time.Second, func() bool {
+						mu.Lock()
+						defer mu.Unlock()
+						for j, o := range st {
+							if j != it.Req && o.finalSeq != 0 && !o.returned {
+								return false
+							}
+						}
+						return true
+					})
+				}
 				codes := append([]int{}, q.Codes...)
 				for k := 0; k < q.WrongLen; k++ {
 					codes = append(codes, 1)
